@@ -163,12 +163,57 @@ func snakeFamily(thorough bool) [][][]ref.P {
 	return out
 }
 
+// diamondFamily: two diamond-shaped wings joined by a thin neck (each wing's extreme points are
+// single vertices), optionally with a 3x3 pixel square hole in the upper or lower half of a wing;
+// every start vertex.  Quarter pixels on a 32x32 pixel grid.
+func diamondFamily(thorough bool) [][][]ref.P {
+	var out [][][]ref.P
+	ws := []int64{1, 2}
+	if thorough {
+		ws = []int64{1, 2, 3, 5}
+	}
+	for _, w := range ws {
+		c := int64(30) // y of the neck axis (7.5 px: the neck lies inside one pixel row)
+		shell := []ref.P{{28, 2}, {56, c - w}, {60, c - w}, {88, 2}, {116, c}, {88, 58}, {60, c + w}, {56, c + w}, {28, 58}, {0, c}}
+		if !ref.Simple(shell) || ref.Area2(shell) <= 0 {
+			continue
+		}
+		var holes [][]ref.P
+		for _, cx := range []int64{28, 88} {
+			for _, cy := range []int64{c + 12, c - 12} {
+				holes = append(holes, rect(cx-6, cy-6, cx+6, cy+6, true))
+			}
+		}
+		for _, sr := range rotations(shell, allRot(len(shell))) {
+			out = append(out, [][]ref.P{sr})
+			for _, h := range holes {
+				for _, hr := range rotations(h, []int{0, 2}) {
+					if ref.HoleOK(sr, nil, hr) {
+						out = append(out, [][]ref.P{sr, hr})
+					}
+				}
+			}
+			if thorough {
+				for i := range holes {
+					for j := i + 1; j < len(holes); j++ {
+						if ref.HoleOK(sr, nil, holes[i]) && ref.HoleOK(sr, [][]ref.P{holes[i]}, holes[j]) {
+							out = append(out, [][]ref.P{sr, holes[i], holes[j]})
+						}
+					}
+				}
+			}
+		}
+	}
+	return out
+}
+
 func familyScopes(thorough bool) []Scope {
 	one := [][]int{{0}}
 	return []Scope{
 		{Name: "F-neck", GS: synthGS(0, 4, [2]int64{1, 4}), Spec: lat.Spec{Explicit: neckFamily(thorough), Valid: true}, IDSets: one, Cfgs: keepCfgs},
 		{Name: "F-moat", GS: synthGS(0, 4, [2]int64{1, 1}), Spec: lat.Spec{Explicit: moatFamily(thorough), Valid: true}, IDSets: one, Cfgs: keepCfgs},
 		{Name: "F-c", GS: synthGS(0, 4, [2]int64{1, 2}), Spec: lat.Spec{Explicit: cFamily(thorough), Valid: true}, IDSets: one, Cfgs: keepCfgs},
+		{Name: "F-diamond", GS: GridSpec{Kind: "synth", Deepest: 1, Px: 1, Sub: 4, OffPx: [2]int64{1, 9}, TileWidth: 1}, Spec: lat.Spec{Explicit: diamondFamily(thorough), Valid: true}, IDSets: [][]int{{1}}, Cfgs: keepCfgs},
 		{Name: "F-snake", GS: synthGS(0, 8, [2]int64{0, 2}), Spec: lat.Spec{Explicit: snakeFamily(thorough), Valid: true}, IDSets: one, Cfgs: keepCfgs},
 	}
 }
